@@ -258,6 +258,7 @@ impl Check for C02 {
             let honest = honest_parties(&spec);
             let any_ok = honest.iter().any(|h| matches!(run.res.ends[*h], End::Ok(_)));
             out.count(if any_ok { "runs_with_an_honest_ok" } else { "runs_all_honest_err" }, 1);
+            count_honest_errs(&mut out, &spec, &run);
             out.violations.extend(c02_oracle(&spec, &run));
             if out.samples.is_empty() && any_ok {
                 out.samples.push(json!({"configuration": cfg.base.sample(), "corrupted": cfg.c, "mode": format!("{mode:?}"), "fault": describe_fault(&spec),
